@@ -463,6 +463,24 @@ func rulesNewickWriter(c *Ctx, r *Report) {
 			badWrites = append(badWrites, callName(cl)+" at "+c.pos(cl.Pos()))
 		}
 	})
+	// where a ',' is written depends on the child's number only, never on what is in the buffer (an empty child
+	// writes nothing)
+	var bufDependent []string
+	instrs(w, func(in ssa.Instruction) {
+		cl, ok := in.(*ssa.Call)
+		if !ok || cl.Call.StaticCallee() == nil || qname(cl.Call.StaticCallee()) != "(*bytes.Buffer).WriteByte" {
+			return
+		}
+		_, atoms := guardOfFull(s, cl.Block(), nil)
+		for _, at := range atoms {
+			if strings.Contains(at, "bytes.(*Buffer).Len(") || strings.Contains(at, "bytes.(*Buffer).Bytes(") || strings.Contains(at, "bytes.(*Buffer).String(") || strings.Contains(at, "(*bytes.Buffer).Len(") {
+				bufDependent = append(bufDependent, c.pos(cl.Pos())+" under "+at)
+			}
+		}
+	})
+	r.check(len(bufDependent) == 0, "END", fname(w), "separators by position", c.pos(w.Pos()),
+		"no structural byte is written depending on the buffer's content or length: separators follow the children's positions",
+		fmt.Sprintf("a structural byte is written depending on what the buffer holds (%v): a child that writes nothing (unnamed, no length, no children) loses its separator and the tree changes shape", bufDependent))
 	okConsts := true
 	var cs []string
 	for _, k := range consts {
